@@ -222,6 +222,20 @@ def items(tier):
     for sp in F.usage_specs():
         if "parent-child:one-cap1" not in sp["label"] and ("bottom-up:fac" not in sp["label"] or sp["label"].endswith("two:both")):
             out.append((sp, {"rule": "TSLACK", "due": False, "rev": True, "absence": [], "max_time": F.seq_bound(sp) + 12}))
+    # two tasks sharing ONE list object as their input list (design -> build_a, build_b -> test)
+    for wv in ((2, 2, 3, 1), (1, 3, 2, 2)):
+        fl = {"tasks": [{"name": F.tname(i), "work": float(w)} for i, w in enumerate(wv)], "links": [[0, 1, "FS"], [0, 2, "FS"], [1, 3, "FS"], [2, 3, "FS"]]}
+        for lay in ("POOL2", "DED"):
+            sp = dict(F.with_teams(fl, lay), share_input_list=[[1, 2]])
+            for dflag, rev in itertools.product((False, True), repeat=2):
+                out.append((sp, {"rule": "TSLACK", "due": dflag, "rev": rev, "absence": [], "max_time": F.seq_bound(sp) + 12}))
+    # conveyor links declared on one side only while warnings are errors (a run that has no reason to warn)
+    for sp0 in F.fac_specs("quick"):
+        if sp0["label"] in ("fac:2:per-task:two-conveyor:plain:both", "fac:2:shared:two-conveyor:two:both"):
+            for wiring in ("one-sided", "one-sided-out", None):
+                sp = dict(sp0, workplaces=[dict(wp, wire_inputs=wiring) for wp in sp0["workplaces"]])
+                for rev in (True, False):
+                    out.append((sp, {"rule": "TSLACK", "due": False, "rev": rev, "absence": [], "warn_error": True, "max_time": F.seq_bound(sp) + 12}))
     # a backward run that asked for automatic tasks to go on during absence, followed by a forward run that leaves the keyword out
     for sp in F.auto_component_specs()[:: (2 if tier == "quick" else 1)] + [c08.base_models()[2]]:
         for ab in ([1], [0, 2], [2, 3]):
